@@ -34,26 +34,24 @@ pub enum Node {
 
 const OVERFLOW: &str = "Integer overflow";
 
-fn gcd(expr1: i64, expr2: i64) -> Option<i64> {
+fn gcd(expr1: u64, expr2: u64) -> u64 {
     let mut a = expr1;
     let mut b = expr2;
     while b != 0 {
         #[cfg(feature = "verif_hooks")]
         crate::verif_hooks::tick();
-        let remainder = a.wrapping_rem(b);
+        let remainder = a % b;
         a = b;
         b = remainder;
     }
-    a.checked_abs()
+    a
 }
 
-fn lcm(expr1: i64, expr2: i64) -> Option<i64> {
+fn lcm(expr1: u64, expr2: u64) -> Option<u64> {
     if expr1 == 0 || expr2 == 0 {
         return Some(0);
     }
-    (expr1 / gcd(expr1, expr2)?)
-        .checked_mul(expr2)?
-        .checked_abs()
+    (expr1 / gcd(expr1, expr2)).checked_mul(expr2)
 }
 
 pub fn eval(expr: Node) -> Result<i64, Box<dyn error::Error>> {
@@ -150,41 +148,26 @@ pub fn eval(expr: Node) -> Result<i64, Box<dyn error::Error>> {
             Ok(eval_1.log(eval_2) as i64)
         }
         Gcd(args) => {
-            // Ok(gcd(eval(*expr1)?, eval(*expr2)?))
-            if args.len() > 1 {
-                let mut result: Option<i64> = None;
-                for arg in <Vec<Node> as Clone>::clone(&args).into_iter() {
-                    let right_art = eval(arg)?;
-                    result = result
-                        .map(|left_arg| gcd(left_arg, right_art).ok_or(OVERFLOW))
-                        .unwrap_or(Ok(right_art))
-                        .map(Some)?;
-                }
-                Ok(result.unwrap())
-            } else {
-                match args.first() {
-                    Some(arg) => Ok(eval((*arg).clone())?),
-                    None => Ok(0),
-                }
+            // computed on magnitudes, so the result does not depend on the order of the arguments
+            let mut result: u64 = 0;
+            for arg in <Vec<Node> as Clone>::clone(&args).into_iter() {
+                result = gcd(result, eval(arg)?.unsigned_abs());
             }
+            Ok(i64::try_from(result).map_err(|_| OVERFLOW)?)
         }
         Lcm(args) => {
-            if args.len() > 1 {
-                let mut result: Option<i64> = None;
-                for arg in <Vec<Node> as Clone>::clone(&args).into_iter() {
-                    let right_art = eval(arg)?;
-                    result = result
-                        .map(|left_arg| lcm(left_arg, right_art).ok_or(OVERFLOW))
-                        .unwrap_or(Ok(right_art))
-                        .map(Some)?;
-                }
-                Ok(result.unwrap())
-            } else {
-                match args.first() {
-                    Some(arg) => Ok(eval((*arg).clone())?),
-                    None => Ok(0),
-                }
+            let mut values = vec![];
+            for arg in <Vec<Node> as Clone>::clone(&args).into_iter() {
+                values.push(eval(arg)?.unsigned_abs());
             }
+            if values.contains(&0) {
+                return Ok(0);
+            }
+            let mut result: u64 = 1;
+            for value in values {
+                result = lcm(result, value).ok_or(OVERFLOW)?;
+            }
+            Ok(i64::try_from(result).map_err(|_| OVERFLOW)?)
         }
         Min(args) => {
             if args.len() > 1 {
